@@ -51,6 +51,7 @@ class TLCResult:
         self.invariant = None  # violated invariant / property name
         self.error = None
         self.out = ""
+        self.unparsed = []
         self.printed = []  # parsed PrintT values (python objects) in order
         self.coverage = {}  # action name -> (distinct, total)
         self.wall = 0.0
@@ -200,16 +201,29 @@ def run_tlc(module, cfg, workdir, *, workers=None, env=None, simulate=None, dept
     r.ok = (p.returncode == 0 and r.invariant is None and r.error is None)
     if simulate and r.invariant is None and r.error is None:
         r.ok = True  # simulation mode returns non-zero on interruption by num= limit in some builds
-    # PrintT values: every output line that is not TLC chatter and parses as a TLA+ value
-    for line in p.stdout.splitlines():
-        s = line.strip()
-        if not s or s[0] not in '<"{[':
+    # PrintT values: output lines that are not TLC chatter and parse as a TLA+ value; TLC wraps
+    # long values over several lines, so lines are accumulated until the brackets balance
+    lines = p.stdout.splitlines()
+    i = 0
+    while i < len(lines):
+        s = lines[i].strip()
+        i += 1
+        if not (s.startswith("<<") or s.startswith('"@')):
             continue
-        if s.startswith("<<") or s.startswith('"@'):
-            try:
-                r.printed.append(parse_tla_value(s))
-            except Exception:
-                pass
+        buf = s
+        if s.startswith("<<"):
+            d = _depth(s)
+            parts = [s]
+            while d > 0 and i < len(lines) and len(parts) < 200000:
+                nxt = lines[i].strip()
+                parts.append(nxt)
+                d += _depth(nxt)
+                i += 1
+            buf = " ".join(parts)
+        try:
+            r.printed.append(parse_tla_value(buf))
+        except Exception:
+            r.unparsed.append(buf[:300])
     if coverage:
         for m in re.finditer(r"^<([\w!]+) line \d+, col \d+ to line \d+, col \d+ of module (\w+)(?: \([\d ]+\))?>: (\d+):(\d+)",
                              r.out, re.M):
@@ -218,6 +232,20 @@ def run_tlc(module, cfg, workdir, *, workers=None, env=None, simulate=None, dept
             od, ot = r.coverage.get(name, (0, 0))
             r.coverage[name] = (od + d, ot + t)
     return r
+
+
+_BR = re.compile(r'"(?:[^"\\]|\\.)*"|<<|>>|[\[\]{}]')
+
+
+def _depth(text):
+    d = 0
+    for m in _BR.finditer(text):
+        t = m.group(0)
+        if t in ("<<", "[", "{"):
+            d += 1
+        elif t in (">>", "]", "}"):
+            d -= 1
+    return d
 
 
 def _first_error(out):
